@@ -157,6 +157,11 @@ func (c *verifContainer) EvalKey(key string) interface{} {
 }
 func (c *verifContainer) EvalRef(key string) (string, bool) { return resmgr.KeyValue(key, c) }
 
+// Expand is the real container's Expand (pkg/resmgr/cache/container.go:1124).
+func (c *verifContainer) Expand(src string, mustResolve bool) (string, error) {
+	return resmgr.Expand(src, c, mustResolve)
+}
+
 type verifCache struct {
 	cache.Cache
 	containers map[string]*verifContainer
@@ -376,6 +381,7 @@ type verifProfile struct {
 	share                                      cfgapi.CPUTopologyLevel
 	preferNew, spreadPods, hideHT              bool
 	explicitReserved                           bool // the built-in "reserved" type is written out in the configuration
+	groupBy                                    string
 }
 
 var verifProfiles = []verifProfile{
@@ -395,6 +401,8 @@ var verifProfiles = []verifProfile{
 	{machine: 0, minCpus: 1, maxCpus: 2, maxBalloons: 2, share: cfgapi.CPUTopologyLevelSystem, preferNew: true, hideHT: true},
 	// the built-in reserved type defined explicitly (its omitted numbers are filled in by the policy)
 	{machine: 0, minCpus: 1, maxCpus: 2, share: cfgapi.CPUTopologyLevelPackage, explicitReserved: true},
+	// containers grouped by namespace into balloons of at most 2 CPUs
+	{machine: 0, maxCpus: 2, groupBy: "${namespace}"},
 }
 
 // verifConfig builds a configuration with the user balloon types "a" (chosen by
@@ -452,6 +460,7 @@ func verifConfigFor(pr verifProfile) (*cfgapi.Config, int) {
 		hide := true
 		a.HideHyperthreads = &hide
 	}
+	a.GroupBy = pr.groupBy
 	verifFinishConfig(cfg, a, pr.available)
 	if pr.explicitReserved {
 		cfg.BalloonDefs = append([]*cfgapi.BalloonDef{{Name: "reserved", CpuClass: "class-reserved", Namespaces: []string{"kube-system"}}}, cfg.BalloonDefs...)
